@@ -23,6 +23,11 @@ pub struct PhaseCase {
     pub backend_conn_num: u8,
     pub nodes_v2: bool,
     pub active_redirection: bool,
+    /// number of metadata refreshes delivered AFTER the phase was reached: the admin API bumps all
+    /// epochs (PUT /epoch), the unchanged content is re-sent with the higher epoch while the migration
+    /// is in flight (what any unrelated change of the cluster causes in production)
+    #[serde(default)]
+    pub refresh: u8,
 }
 
 pub fn strategy(max_probes: usize) -> impl Strategy<Value = PhaseCase> {
@@ -34,8 +39,9 @@ pub fn strategy(max_probes: usize) -> impl Strategy<Value = PhaseCase> {
         1u8..=3,
         any::<bool>(),
         prop::bool::weighted(0.25),
+        prop_oneof![3 => Just(0u8), 2 => Just(1u8), 1 => Just(2u8)],
     )
-        .prop_map(|(mut base, compress, phase, probes, backend_conn_num, nodes_v2, active_redirection)| {
+        .prop_map(|(mut base, compress, phase, probes, backend_conn_num, nodes_v2, active_redirection, refresh)| {
             // states with a migration are the interesting ones: bias the history towards them
             if base.ops.len() > 2 && !base.ops.iter().any(|o| matches!(o, brokersim::Op::Migrate { .. } | brokersim::Op::ScaleDownSmart { .. } | brokersim::Op::ScaleDown { .. })) {
                 base.ops.push(brokersim::Op::AddNodesSmart { c: 0, k: 1 });
@@ -56,7 +62,7 @@ pub fn strategy(max_probes: usize) -> impl Strategy<Value = PhaseCase> {
                     }
                 }
             }
-            PhaseCase { base, compress, phase, probes, backend_conn_num, nodes_v2, active_redirection }
+            PhaseCase { base, compress, phase, probes, backend_conn_num, nodes_v2, active_redirection, refresh }
         })
 }
 
@@ -116,7 +122,9 @@ fn owners_of(cl: &VCluster, phase: u8) -> Result<Owners, Fail> {
 }
 
 /// the broker part (its own runtime): final views and the typed per-proxy metadata
-fn prepare(case: &PhaseCase) -> (Views, BTreeMap<String, undermoon::common::cluster::Proxy>) {
+type Typed = BTreeMap<String, undermoon::common::cluster::Proxy>;
+
+fn prepare(case: &PhaseCase) -> (Views, Typed, Vec<Typed>) {
     let mut sim = Sim::new(&case.base.cfg);
     let mut pre = sim.views();
     for op in &case.base.ops {
@@ -133,10 +141,25 @@ fn prepare(case: &PhaseCase) -> (Views, BTreeMap<String, undermoon::common::clus
             typed.insert(a.clone(), p);
         }
     }
-    (pre, typed)
+    // the refreshed views: same content, higher epochs
+    let mut refreshed = vec![];
+    for _ in 0..case.refresh {
+        let e = sim.rt.block_on(sim.svc.get_epoch()).unwrap_or(0);
+        if sim.rt.block_on(sim.svc.force_bump_all_epoch(e + 1)).is_err() {
+            break;
+        }
+        let mut t = BTreeMap::new();
+        for a in pre.proxies.keys() {
+            if let Ok(Some(p)) = sim.rt.block_on(sim.svc.get_proxy_by_address(a)) {
+                t.insert(a.clone(), p);
+            }
+        }
+        refreshed.push(t);
+    }
+    (pre, typed, refreshed)
 }
 
-async fn run(case: &PhaseCase, which: Which, v: Views, typed: BTreeMap<String, undermoon::common::cluster::Proxy>, obs: &mut Obs) -> Result<(), Fail> {
+async fn run(case: &PhaseCase, which: Which, v: Views, typed: Typed, refreshed: Vec<Typed>, obs: &mut Obs) -> Result<(), Fail> {
     use undermoon::coordinator::verif_export::{ProxyMetaRespSender, ProxyMetaSender};
     let Some(cl) = v.clusters.get("c0") else {
         obs.class("state:no-cluster(trivial)");
@@ -182,15 +205,28 @@ async fn run(case: &PhaseCase, which: Which, v: Views, typed: BTreeMap<String, u
     }
     // let the migrations run into the held message (virtual time)
     tokio::time::sleep(Duration::from_millis(300)).await;
+    // metadata refreshes while the migration is in flight: same content, higher epoch
+    for (i, t) in refreshed.iter().enumerate() {
+        let k = (i + 1) % members.len().max(1);
+        for p in members[k..].iter().chain(members[..k].iter()) {
+            if let Some(proxy) = t.get(p) {
+                sender.send_meta(proxy.clone()).await.map_err(|e| Fail::new("C02:sync-failed", format!("coordinator could not re-sync {}: {:?}", p, e)))?;
+            }
+        }
+        tokio::time::sleep(Duration::from_millis(50)).await;
+        obs.class(format!("refresh-during-phase{}{}", case.phase, if n_mig > 0 { ":migrating" } else { "" }));
+    }
+    let current = refreshed.last().unwrap_or(&typed);
     for p in &members {
         let r = world.once(p, &cmd(&["UMCTL", "GETEPOCH"])).await;
+        let want = current.get(p).map(|x| x.get_epoch()).unwrap_or(v.proxies[p].epoch);
         ensure!(
-            matches!(&r, Resp::Integer(i) if i == v.proxies[p].epoch.to_string().as_bytes()),
+            matches!(&r, Resp::Integer(i) if i == want.to_string().as_bytes()),
             "C02:proxy-did-not-apply-view",
             "proxy {} reports epoch {} after the sync, the broker's view has {}",
             p,
             show_resp(&r),
-            v.proxies[p].epoch
+            want
         );
     }
     if n_mig > 0 && case.phase == 3 {
@@ -354,22 +390,22 @@ async fn run(case: &PhaseCase, which: Which, v: Views, typed: BTreeMap<String, u
 }
 
 pub fn check_routing(case: &PhaseCase, obs: &mut Obs) -> Result<(), Fail> {
-    let (v, typed) = prepare(case);
+    let (v, typed, refreshed) = prepare(case);
     let rt = world_runtime();
-    let r = rt.block_on(run(case, Which::Routing, v, typed, obs));
+    let r = rt.block_on(run(case, Which::Routing, v, typed, refreshed, obs));
     drop(rt);
     r
 }
 
 pub fn check_topology(case: &PhaseCase, obs: &mut Obs) -> Result<(), Fail> {
-    let (v, typed) = prepare(case);
+    let (v, typed, refreshed) = prepare(case);
     let rt = world_runtime();
-    let r = rt.block_on(run(case, Which::Topology, v, typed, obs));
+    let r = rt.block_on(run(case, Which::Topology, v, typed, refreshed, obs));
     drop(rt);
     r
 }
 
-pub const RULE: &str = "broker states reached by generated operation histories (stable, mid-migration, after failover/replacement, limited migration) are delivered to a world of REAL proxies (one per cluster member, two Redis stand-ins each) through the REAL coordinator sender (SETREPL + SETCLUSTER, plain or compressed); the real migrations are frozen in a generated phase pair by holding PRECHECK / SCAN / FINALSWITCH messages; from EVERY proxy of the cluster a SET with a unique token is sent for every range boundary +-1 and generated slots, MOVED followed; oracle from the broker's cluster JSON: executed (stand-in logs) on exactly the designated node - source in (PreCheck,PreCheck), destination afterwards -, <=1 redirection for stable and <=3 for migrating slots, no data command on a foreign node; non-trivial = >=2 proxies and (start proxy != owner proxy or slot migrating); distinct = hash of the case";
+pub const RULE: &str = "broker states reached by generated operation histories (stable, mid-migration, after failover/replacement, limited migration) are delivered to a world of REAL proxies (one per cluster member, two Redis stand-ins each) through the REAL coordinator sender (SETREPL + SETCLUSTER, plain or compressed); the real migrations are frozen in a generated phase pair by holding PRECHECK / SCAN / FINALSWITCH messages; in half of the cases the metadata is then refreshed 1-2 times while the migration is in flight (admin epoch bump, same content re-sent with a higher epoch through the real sender); from EVERY proxy of the cluster a SET with a unique token is sent for every range boundary +-1 and generated slots, MOVED followed; oracle from the broker's cluster JSON: executed (stand-in logs) on exactly the designated node - source in (PreCheck,PreCheck), destination afterwards -, <=1 redirection for stable and <=3 for migrating slots, no data command on a foreign node; non-trivial = >=2 proxies and (start proxy != owner proxy or slot migrating); distinct = hash of the case";
 pub const RULE_TOPO: &str = "[phases] the same frozen-phase worlds built from reachable broker states: CLUSTER NODES and CLUSTER SLOTS of EVERY proxy (source, destination, bystander) parsed independently; every slot exactly once in each and at the same address; stable slots at the owner proxy, migrating slots at the source in (PreCheck,PreCheck) and at the destination afterwards on the proxies that run the migration, once at either side on bystanders; non-trivial = the state has a migration";
 
 pub fn run_prop(ctx: &Ctx, findings: &Findings) -> PropReport {
